@@ -438,6 +438,12 @@ fn check_streams(set: &MacroSet, extra_preamble: &str, streams: &[Vec<Tok>], wit
                 // e.g. \the applied to a non-variable (todo!() in the.rs): a totality matter
                 // (property C09), identical in both implementations
                 obs.skip("both-implementations-panicked-identically");
+                if a.budget {
+                    obs.count("identical-panic:step-budget");
+                } else {
+                    let sig: String = a.signature().chars().take(150).collect();
+                    obs.count(&format!("identical-panic:{sig}"));
+                }
             } else {
                 obs.repo_panic(&a, json!({"preamble": preamble, "streams": srcs, "other_panic": b.signature()}));
             }
@@ -865,6 +871,9 @@ impl Monitor for M {
             Phase::new("xa-enum", XA_ENUM_CASES).batch(32).exhaustive(
                 "\\xa^k1\\a\\xa^k2\\b\\xa^k3\\c\\xa^k4\\d for all k1,k2,k3 in 0..7, k4 in 0..1 x 3 macro sets (parameterless, the repo's accumulator macros, mixed with parameters and \\noexpand) x {only \\expandafter, alternating with a \\let alias}",
             ),
+            Phase::new("xa-long", 16 * 2 * 3 * 3).batch(8).exhaustive(
+                "single chains (\\xa f)^n \\xa\\a\\b for n in {8,15,16,17,31,32,33,34,63,64,65,100,255,256,257,600} x alias mode x 3 fillers x 3 macro sets",
+            ),
             Phase::new("xa-macro", tier.pick(15_000, 400_000)).batch(64),
             Phase::new("xa-mixed", tier.pick(10_000, 250_000)).batch(64),
         ]
@@ -956,6 +965,21 @@ impl Monitor for M {
                 let stream = xa::enum_stream(k, alias_mode, variant, &mut st);
                 stream_stats(&st, obs);
                 check_streams(&set, "", &[stream], true, "xa-enum", obs);
+            }
+            "xa-long" => {
+                let mut i = idx;
+                let n = xa::LONG_CHAIN_LENGTHS[(i % 16) as usize];
+                i /= 16;
+                let alias_mode = i % 2;
+                i /= 2;
+                let filler = i % 3;
+                let variant = i / 3;
+                let set = xa::fixed_macro_set(variant);
+                let mut st = StreamStats::default();
+                let stream = xa::long_chain_stream(n, alias_mode, filler, &mut st);
+                stream_stats(&st, obs);
+                obs.count("xa:long-chains");
+                check_streams(&set, "", &[stream], true, "xa-long", obs);
             }
             "xa-macro" | "xa-mixed" => {
                 let mixed = phase == "xa-mixed";
